@@ -35,6 +35,9 @@ func runHistories(b *harness.B) {
 		spent := newSpentTracker(b, c, mon)
 		mon.OnApply(c.GenesisEvent)
 		c.OnStoreApplied = func(ev chaingen.ApplyEvent) {
+			if len(ev.Kinds) >= 3 {
+				b.Sample(chaingen.DescribeBlock(ev.Prev, ev.Block, ev.Kinds))
+			}
 			mon.OnApply(ev)
 			mon.CheckStore(c.S, ev.Next, "after-apply")
 			spent.onApply(ev)
@@ -145,8 +148,8 @@ func (t *spentTracker) onRevert(ev chaingen.RevertEvent) {
 
 func main() {
 	harness.Main(harness.Spec{
-		ID:   "C05",
-		Rule: "batch 0: shape enumerator (signature-free network; leaf counts 1..N exhaustively, for small accumulators every subset of spent leaves x number of added outputs, each applied, reverted and re-applied); other batches: chaingen histories over the five network families with random reorg schedules (depth up to the whole chain). After every apply/revert every proof in the client store (all kinds, plus proofs of spent outputs) is compared with the naive forest path and verified against State.Elements. distinct = (leaf-count low bits, popcount/trailing-ones pattern before and after, updated?/attestations?, reorg depth per family, enumerated (n, subset, added) shapes).",
+		ID:     "C05",
+		Rule:   "batch 0: shape enumerator (signature-free network; leaf counts 1..N exhaustively, for small accumulators every subset of spent leaves x number of added outputs, each applied, reverted and re-applied); other batches: chaingen histories over the five network families with random reorg schedules (depth up to the whole chain). After every apply/revert every proof in the client store (all kinds, plus proofs of spent outputs) is compared with the naive forest path and verified against State.Elements. distinct = (leaf-count low bits, popcount/trailing-ones pattern before and after, updated?/attestations?, reorg depth per family, enumerated (n, subset, added) shapes).",
 		Assume: []string{"blake2b from x/crypto and the element hashes from the public types.Hasher are the trusted primitives", "the store applies updates in order, as the statement requires"},
 		Batches: func(t string) int {
 			if t == "quick" {
